@@ -209,7 +209,7 @@ def free_vars(e):
         for c in e["cs"]:
             s |= free_vars(c["b"]) - pat_vars(c["p"])
         return s
-    if k in ("call", "con"):
+    if k in ("call", "con", "bcall"):
         return set().union(*[free_vars(x) for x in e["args"]]) if e["args"] else set()
     if k == "apply":
         return free_vars(e["f"]) | (set().union(*[free_vars(x) for x in e["args"]]) if e["args"] else set())
@@ -439,6 +439,9 @@ class G:
                 if op in ("/", "%") and r.random() < 0.8:
                     rr = {"k": "int", "n": r.choice([1, 2, 3, 5, 7])} if r.random() < 0.7 else {"k": "neg", "e": {"k": "int", "n": r.choice([1, 2, 3])}}
                 return {"k": "binop", "op": op, "l": l, "r": rr}
+            if c < 0.47:
+                return {"k": "bcall", "f": "length_of_bytearray", "args": [self.gen(BYTES, env, fuel // 2)]} if r.random() < 0.6 else \
+                    {"k": "bcall", "f": "index_bytearray", "args": [self.gen(BYTES, env, fuel // 2), {"k": "int", "n": r.choice([0, 0, 1, 2])}]}
             if c < 0.5:
                 return {"k": "neg", "e": self.gen(INT, env, fuel - 1)}
             if c < 0.6:
@@ -450,6 +453,8 @@ class G:
                 tt = TPair(INT, BYTES)
                 return {"k": "tupidx", "e": self.gen_na(tt, env, fuel // 2), "i": 1, "ty": tt}
             return self.lit(ty) if r.random() < 0.5 else self.gen(ty, env, fuel // 2)
+        if t == "Bool" and c < 0.06:
+            return {"k": "bcall", "f": r.choice(["less_than_bytearray", "less_than_equals_bytearray"]), "args": [self.gen(BYTES, env, fuel // 2), self.gen(BYTES, env, fuel // 2)]}
         if t == "Bool":
             if c < 0.3:
                 return {"k": "binop", "op": r.choice(["<", "<=", ">", ">=", "==", "!="]), "l": self.gen(INT, env, fuel // 2),
@@ -505,6 +510,14 @@ class G:
                 fts = field_types(ty, ci)
                 return {"k": "con", "ty": ty["n"], "i": ci, "args": [self.gen(f, env, fuel // (len(fts) + 1)) for f in fts]}
             return self.lit(ty)
+        if t == "ByteArray":
+            if c < 0.22:
+                return {"k": "bcall", "f": "append_bytearray", "args": [self.gen(BYTES, env, fuel // 2), self.gen(BYTES, env, fuel // 2)]}
+            if c < 0.30:
+                return {"k": "bcall", "f": "cons_bytearray", "args": [{"k": "int", "n": r.choice([0, 65, 255, 255, 256])}, self.gen(BYTES, env, fuel // 2)]}
+            if c < 0.40:
+                return {"k": "bcall", "f": "slice_bytearray", "args": [{"k": "int", "n": r.choice([0, 1, 2])}, {"k": "int", "n": r.choice([0, 1, 5])}, self.gen(BYTES, env, fuel // 2)]}
+            return self.lit(ty) if r.random() < 0.6 else self.gen(ty, env, fuel // 2)
         if t == "Data":
             ty2 = r.choice([t2 for t2 in ser_pool() if t2["t"] not in ("Data",)])
             return {"k": "todata", "ty": ty2, "e": self.gen(ty2, env, fuel - 1)}
@@ -862,6 +875,8 @@ def render(e, ind=1):
         if e.get("pipe") and args:
             return "(%s |> %s(%s))" % (args[0], e["f"], ", ".join(args[1:]))
         return "%s(%s)" % (e["f"], ", ".join(args))
+    if k == "bcall":
+        return "builtin.%s(%s)" % (e["f"], ", ".join(render(a, ind) for a in e["args"]))
     if k == "apply":
         f = render(e["f"], ind)
         if e["f"]["k"] != "var":
@@ -958,7 +973,7 @@ def render_types(types=TYPES):
 
 
 def render_module(g):
-    out = [render_types()]
+    out = ["use aiken/builtin\n", render_types()]
     for n in g.order:
         f = g.fns[n]
         ps = ", ".join("%s: %s" % (p, ty_str(t)) for p, t in zip(f["ps"], f["pts"]))
